@@ -12,6 +12,7 @@ import (
 	"github.com/google/uuid"
 	"github.com/internetarchive/Zeno/internal/pkg/config"
 	"github.com/internetarchive/Zeno/internal/pkg/source/lq/sqlc_model"
+	"github.com/internetarchive/Zeno/internal/pkg/verifhook"
 )
 
 type LQClient struct {
@@ -70,6 +71,8 @@ func (c *LQClient) Get(ctx context.Context, limit int) ([]sqlc_model.Url, error)
 	if err = tx.Commit(); err != nil {
 		return nil, err
 	}
+
+	verifhook.At("lq.get.committed")
 
 	return freshUrls, nil
 }
